@@ -27,8 +27,9 @@
 // counter, plus a final read-only sweep) is LINEARIZABLE (porcupine). The sequential specification is
 // the component itself: the model state is the sequence of calls linearized so far, Step replays that
 // sequence plus the candidate on a fresh instance in one goroutine and compares the candidate's result
-// (memoised per sequence). States are compared on the subsequence of calls that are not pure reads
-// (GetSlot, ClosestToSlot, Justified, Finalized, Pin; Pubkey, ValidatorIndex; Search, All; Pack*).
+// (memoised per sequence). Two sequences that linearized the same set of calls count as the same state when
+// the replayed instances have the same structural fingerprint (fingerprint.go: every reachable field, unexported
+// ones included, aliasing included; only mutex words, funcs, the spec and the decompressed-point cache left out).
 // Results are canonical: unordered result sets sorted, errors by presence, roots/keys as letters.
 // A call that panics or blocks in a purely sequential order too is no C17 matter: it is matched by the
 // replay (small) or looked for in three sequential orders (large) and counted under excluded_known.
@@ -58,6 +59,7 @@ import (
 	"sort"
 	"strings"
 	"testing"
+	"time"
 
 	"github.com/anishathalye/porcupine"
 	"github.com/protolambda/zrnt/eth2/beacon/common"
@@ -111,7 +113,10 @@ var yieldPatterns = []string{"0", "0", "1", "2", "3", "10", "01", "1000", "0002"
 
 func genSched(t *rapid.T, g int) Sched {
 	s := Sched{Release: "barrier"}
-	if uni(t, 3, "release") == 0 {
+	switch uni(t, 6, "release") {
+	case 0, 1:
+		s.Release = "spin"
+	case 2:
 		s.Release = "stagger"
 		s.Lag = between(t, 1, 30, "lag")
 	}
@@ -289,6 +294,17 @@ func genPk(t *rapid.T, size string) *Case {
 			c.Threads[g] = append(c.Threads[g], op)
 		}
 	}
+	if uni(t, 3, "hot_start") == 0 {
+		// every goroutine starts with an add at the next index of the shared handle: the same pair, or another key
+		for g := range c.Threads {
+			op := Op{K: "add", I: uint64(n), Key: pending(0)}
+			if uni(t, 2, "hot_other") == 0 {
+				op.Key = freshLetters[uni(t, len(freshLetters), "hot_key")]
+			}
+			c.Threads[g][0] = op
+		}
+		c.Note = "hot-start"
+	}
 	c.Sched = genSched(t, len(c.Threads))
 	return c
 }
@@ -369,6 +385,22 @@ func genAtt(t *rapid.T, size string) *Case {
 		ops = append(ops, one())
 	}
 	c.Threads = deal(t, ops, per)
+	if uni(t, 3, "hot_start") == 0 {
+		// every goroutine starts on the same attestation data: aggregates over the hot committee, or a prune
+		n := c.size(hot[0], hot[1], hot[2])
+		for g := range c.Threads {
+			b := make([]byte, n)
+			for i := range b {
+				b[i] = "01"[uni(t, 2, "hot_bit")]
+			}
+			b[uni(t, n, "hot_who")] = '1'
+			c.Threads[g][0] = Op{K: "add", E: hot[0], S: hot[1], C: hot[2], Bits: string(b)}
+			if g > 0 && uni(t, 4, "hot_prune") == 0 {
+				c.Threads[g][0] = Op{K: "prune", Epoch: c.BaseEpoch + uint64(hot[0]) + 2}
+			}
+		}
+		c.Note = "hot-start"
+	}
 	c.Sched = genSched(t, len(c.Threads))
 	return c
 }
@@ -407,6 +439,21 @@ func genOps(t *rapid.T, comp, size string) *Case {
 		ops = append(ops, one())
 	}
 	c.Threads = deal(t, ops, per)
+	if uni(t, 3, "hot_start") == 0 {
+		// every goroutine starts with an operation for the same validator / the same message
+		first := one()
+		for first.K != "add" {
+			first = one()
+		}
+		for g := range c.Threads {
+			op := first
+			if comp != "attslash" && uni(t, 2, "hot_variant") == 0 {
+				op.Variant = 1 - op.Variant
+			}
+			c.Threads[g][0] = op
+		}
+		c.Note = "hot-start"
+	}
 	c.Sched = genSched(t, len(c.Threads))
 	return c
 }
@@ -446,6 +493,19 @@ func genSync(t *rapid.T, size string) *Case {
 		ops = append(ops, one())
 	}
 	c.Threads = deal(t, ops, per)
+	if uni(t, 3, "hot_start") == 0 {
+		// goroutine 0 moves the window while the others add into the slots around it
+		for g := range c.Threads {
+			if g == 0 {
+				c.Threads[g][0] = Op{K: "reset", Slot: cur + 1}
+			} else if uni(t, 2, "hot_kind") == 0 {
+				c.Threads[g][0] = Op{K: "msg", Slot: cur + uint64(uni(t, 3, "hot_slot")), Val: uint64(uni(t, 3, "hot_val"))}
+			} else {
+				c.Threads[g][0] = Op{K: "contrib", Slot: cur + uint64(uni(t, 3, "hot_slot")), Subnet: 1, SBits: 5}
+			}
+		}
+		c.Note = "hot-start"
+	}
 	c.Sched = genSched(t, len(c.Threads))
 	return c
 }
@@ -570,7 +630,7 @@ func (x *checker) runOnce(c *Case, acct bool) *report.Failure {
 				v.replays, v.best, o.dump(c))
 		}
 		if acct {
-			r.Class("lin:" + lin)
+			r.Class("lin:" + lin + ":" + c.Comp)
 			r.ClassN("lin:sequential-replays", int64(v.replays))
 		}
 	}
@@ -590,13 +650,14 @@ func replayIsDeterministic(c *Case) *report.Failure {
 		}
 	}
 	runSeq := func() []string {
-		s := &seqSpec{c: c, memo: map[string]string{}, panicked: map[string]bool{}}
+		s := newSeqSpec(c)
 		var outs []string
 		full := seq.String()
 		for i := 0; i+1 < len(full); i += 2 {
-			outs = append(outs, s.replay(full[:i], opRef{int(full[i]), int(full[i+1])}))
+			r := s.replay(full[:i], opRef{int(full[i]), int(full[i+1])})
+			outs = append(outs, r.out, "fingerprint "+fmt.Sprintf("%x", r.fp))
 		}
-		outs = append(outs, s.replay(full, opRef{finalG, 0}))
+		outs = append(outs, s.replay(full, opRef{finalG, 0}).out)
 		return outs
 	}
 	a, b := runSeq(), runSeq()
@@ -607,6 +668,9 @@ func replayIsDeterministic(c *Case) *report.Failure {
 	}
 	return nil
 }
+
+var resultVocabulary = map[string]bool{"ok": true, "err": true, "true": true, "false": true, "same": true, "fork": true, "none": true, "panic": true,
+	"point": true, "undecodable": true, "nothing-held": true, "{}": true, "nil": true, "other-point": true, "nil-point": true, "nil-handle": true, "nil-with-ok": true}
 
 func bucket(n int) string {
 	switch {
@@ -667,7 +731,7 @@ func (x *checker) account(c *Case, o *outcome, info *overlapInfo, lin string) {
 			case len(out) > 5:
 				out = ""
 			}
-			if out != "" && len(out) <= 12 {
+			if resultVocabulary[out] {
 				seen["result:"+m+"="+out] = true
 			}
 		}
@@ -686,7 +750,9 @@ func (x *checker) account(c *Case, o *outcome, info *overlapInfo, lin string) {
 		for p := range info.pairs {
 			r.Class("overlap:" + c.Comp + ":" + p)
 		}
-		r.Sample(cls, func() any { return c })
+		if c.Size == "small" || c.Comp == "fc" { // large programs are long: one of them is enough in the evidence file
+			r.Sample(cls, func() any { return c })
+		}
 	} else {
 		r.Class(c.Comp + ":trivial(no write overlapped a read of the same key)")
 	}
@@ -747,7 +813,9 @@ func TestCheck(t *testing.T) {
 		}
 		return nil
 	}
-	r.Regress(replay)
+	if os.Getenv("C17_NOREGRESS") == "" || r.Replay != "" { // developer aid for sensitivity runs: the generator alone has to find it
+		r.Regress(replay)
+	}
 	if r.Replay != "" {
 		return
 	}
@@ -757,10 +825,13 @@ func TestCheck(t *testing.T) {
 	}
 	r.Mandatory("small:linearizability-checked", "large:race-detector+watchdog")
 
-	reps := 1
+	// the schedule varies from run to run: every program is executed several times
+	repsOf := map[string]int{"small": 3, "large": 1}
 	if r.Thorough() {
-		reps = 3 // the schedule varies from run to run
+		repsOf = map[string]int{"small": 4, "large": 3}
 	}
+	secs := map[string]float64{}
+	r.S.Extra["seconds_per_search_shard0"] = secs
 	only := os.Getenv("C17_ONLY") // developer aid: e.g. pubkey/small
 	sub := 0
 	for _, comp := range components {
@@ -770,10 +841,11 @@ func TestCheck(t *testing.T) {
 			if only != "" && only != comp+"/"+size && only != comp {
 				continue
 			}
-			n := r.N(160, 3000)
+			n := r.N(160, 1600)
+			t0 := time.Now()
 			r.Search(t, comp+"/"+size, sub, n, func(rt *rapid.T) (any, *report.Failure) {
 				c := gen(rt, comp, size)
-				for i := 0; i < reps; i++ {
+				for i := 0; i < repsOf[size]; i++ {
 					r.Inflight(c)
 					f := x.runOnce(c, i == 0)
 					r.ClearInflight()
@@ -788,6 +860,7 @@ func TestCheck(t *testing.T) {
 				}
 				return c, nil
 			})
+			secs[comp+"/"+size] = float64(int(time.Since(t0).Seconds()*10)) / 10
 		}
 	}
 }
